@@ -9,7 +9,7 @@ use std::sync::Arc;
 
 /// `HashMap::new()` inside `HealthCheckedContext::new` needs OS randomness for its
 /// SipHash keys (FFI, unsupported); the map is never touched on these paths.
-fn random_state_stub() -> std::hash::RandomState {
+pub(crate) fn random_state_stub() -> std::hash::RandomState {
     unsafe { core::mem::zeroed() }
 }
 
